@@ -458,6 +458,23 @@ Proof.
   rewrite (exchange_sets_last G _ _ _ Hw), (exchange_sets_last G _ _ _ Hw'). reflexivity.
 Qed.
 
+(* ---- OPES with multiple walkers: after any number of deposition rounds every walker holds the same
+   kernel list, the concatenation in rank order of what the walkers contributed in each round *)
+Lemma opes_same_list : forall {K : Type} (rounds : list (list K)) (n k : nat) (l : list K),
+  nth_error (opes_run rounds n) k = Some l -> l = concat rounds.
+Proof.
+  intros K rounds n k l.
+  assert (Hgen : forall rs (ws : list (list K)) pre, (forall x, In x ws -> x = pre) ->
+            forall y, In y (fold_left (fun ws c => opes_round c ws) rs ws) -> y = pre ++ concat rs).
+  { induction rs as [|c tl IH]; intros ws pre Hws y Hy; cbn [fold_left concat] in *.
+    - rewrite app_nil_r. auto.
+    - rewrite app_assoc. apply (IH (opes_round c ws) (pre ++ c)); auto.
+      intros x Hx. unfold opes_round, opes_gather in Hx. apply in_map_iff in Hx. destruct Hx as (x0 & <- & Hx0).
+      now rewrite (Hws x0 Hx0). }
+  intros Hk. apply nth_error_In in Hk. unfold opes_run in Hk.
+  apply (Hgen rounds (repeat [] n) []); auto. intros x Hx. now apply repeat_spec in Hx.
+Qed.
+
 (* ------------------------------------------------------------------------------------------- *)
 (* (b) file-based multiple-walker metadynamics                                                  *)
 (* ------------------------------------------------------------------------------------------- *)
